@@ -30,6 +30,7 @@ def outer_pool():
         F.binop('+', F.neg(F.paren(F.cell('a1'))), F.binop('*', F.var('va'), F.call('ABS', F.cell('$B$2')))),
         F.binop('=', F.rng('A1', 'B2'), F.call('NEST', F.var('vb'), F.cell('A1'))),
         F.arr(F.var('va'), F.call('NEST', N('1')), F.cell('B2')),
+        F.binop('+', F.call('SUM', F.rng('A1', 'B2')), F.call('SUM', F.rng('$B$2', 'c3'))),
     ]
 
 
@@ -43,27 +44,30 @@ def inner_pool():
         F.call('IFERROR', F.binop('/', N('1'), N('0')), F.var('va')),
         {'raw': '1+*'},                      # a syntax error
         {'raw': ''},                         # the empty formula
+        F.binop('+', F.call('SUM', F.rng('B2', 'A1')), F.call('COUNT', F.rng('A3', 'B2'))),   # corners of the outer ranges, written the other way round
     ]
 
 
 def env_for(p):
-    va, vb, a1, b2 = BIND[p]
+    va, vb, a1, b2 = BIND[p] if p in BIND else BIND['p%d' % (int(p[1:]) % 3 + 1)]    # q<n>: the crowd of parsers
     env = F.empty_env()
     env['vars'] = {'va': enc(va), 'vb': enc(vb)}
     env['funcs'] = {'NEST': {'mode': 'const', 'v': enc(11 * va), 'i': 0}}
     env['cellsets'] = [{'key': F.cps('A1'), 'vals': [enc(a1)]}, {'key': F.cps('B2'), 'vals': [enc(b2)]}]
+    env['rangesets'] = [{'key': F.cps('A1:B2'), 'vals': [enc([[a1, 1], [2, b2]])]},
+                        {'key': F.cps('B2:C3'), 'vals': [enc([[b2, 3], [4, va]])]}]
     return env
 
 
 class World(object):
     """three pre-built real parsers with distinct bindings, and the trace of what was done to them"""
 
-    def __init__(self, lib, debug=False):
+    def __init__(self, lib, debug=False, names=('p1', 'p2', 'p3')):
         self.lib = lib
         self.h = {}
         self.ev = []
         self.lock = threading.Lock()
-        for p in ('p1', 'p2', 'p3'):
+        for p in names:
             env = env_for(p)
             self.h[p] = F.Harnessed(lib, env, debug=debug)
             for name, v in sorted(env['vars'].items()):
@@ -71,6 +75,7 @@ class World(object):
             for name, c in sorted(env['funcs'].items()):
                 self.ev.append({'e': 'setfn', 'p': p, 'name': name, 'c': c})
             self.ev.append({'e': 'listen', 'p': p, 'kind': 'cell', 'sets': env['cellsets']})
+            self.ev.append({'e': 'listen', 'p': p, 'kind': 'range', 'sets': env['rangesets']})
 
     def parse(self, p, f, solo=None):
         text = f['raw'] if 'raw' in f else F.render(f)
@@ -93,7 +98,7 @@ class World(object):
 def solo_outcome(lib, p, f, cache={}):
     key = (p, json.dumps(f, sort_keys=True))
     if key not in cache:
-        w = World(lib)
+        w = World(lib) if p in BIND else World(lib, names=(p,))
         cache[key] = w.parse(p, f)['out']
     return cache[key]
 
@@ -135,7 +140,10 @@ def run_nested(lib, case):
                 w.h[tp].hooks = {}
                 w.h['p1'].hooks = hooks1
 
-    w.h['p1'].hooks = {k: outer_hook for k in ('cell', 'range', 'var', 'fn', 'call:NEST')}
+    kinds = ('cell', 'range', 'var', 'fn')
+    if case.get('post'):   # the listener first hands its values to the setter, then nests
+        kinds = tuple(k + ':post' for k in kinds)
+    w.h['p1'].hooks = {k: outer_hook for k in kinds + ('call:NEST',)}
     w.parse('p1', outer, solo_outcome(lib, 'p1', outer))
     w.h['p1'].hooks = {}
     # afterwards every parser still answers as when alone
@@ -229,7 +237,7 @@ def count_token_reads(lib, p, f):
             n['n'] += 1
     _local.baton, _local.tid = Counter(), 0
     try:
-        World(lib).parse(p, f)
+        (World(lib) if p in BIND else World(lib, names=(p,))).parse(p, f)
     finally:
         _local.baton = None
     return n['n']
@@ -263,6 +271,86 @@ def run_threads(lib, case):
         raise core.MachineryError(baton.failed)
     return w.ev
 
+
+
+# ------------------------------------------------------------------ one handler object on several parsers
+
+SHARED_FORMS = [{'raw': 'A1+1'}, {'raw': 'SUM(A1,B2)&va'}]
+
+
+def shared_handler():
+    def shared(cell, setter):          # what a host wiring several parsers to one sheet registers everywhere
+        setter(77)
+    return shared
+
+
+def solo_shared(lib, p, how, k, cache={}):
+    """outcomes of the k-th evaluation round on parser p when only p exists with that subscription"""
+    key = (p, how)
+    if key not in cache:
+        w = World(lib, names=(p,))
+        if how != 'none':
+            getattr(w.h[p].p, how)('callCellValue', shared_handler())
+        cache[key] = [[w.parse(p, f)['out'] for f in SHARED_FORMS] for _ in range(4)]
+    return cache[key][k]
+
+
+def run_shared(lib, case):
+    w = World(lib)
+    shared = shared_handler()
+    hows = dict(case['subs'])
+    for p, how in case['subs']:
+        if how != 'none':
+            getattr(w.h[p].p, how)('callCellValue', shared)
+    seen = collections.Counter()
+    for p in case['order']:
+        solo = solo_shared(lib, p, hows[p], seen[p])
+        seen[p] += 1
+        for f, so in zip(SHARED_FORMS, solo):
+            w.parse(p, f, so)
+    return w.ev
+
+
+# ------------------------------------------------------------------ a crowd of evaluations in flight at once
+
+def run_crowd(lib, case):
+    """n threads, each on its own parser object, all between their first and last token at the same time"""
+    patch_lexer()
+    n = case['n']
+    names = ['q%d' % i for i in range(1, n + 1)]
+    w = World(lib, names=names)
+    forms = [(names[i], case['formulas'][i % len(case['formulas'])]) for i in range(n)]
+    counts = [count_token_reads(lib, p, f) + 2 for p, f in forms]
+    sched = []
+    left = list(counts)
+    while any(left):                    # round robin: everybody starts before anybody finishes
+        for i in range(n):
+            if left[i]:
+                sched.append(i + 1)
+                left[i] -= 1
+    baton = Baton(sched, list(range(1, n + 1)))
+    solos = [solo_outcome(lib, p, f) for p, f in forms]
+
+    def body(tid, p, f, solo):
+        _local.baton, _local.tid = baton, tid
+        try:
+            baton.yield_point(tid)
+            w.parse(p, f, solo)
+            baton.yield_point(tid)
+        finally:
+            _local.baton = None
+            baton.finish(tid)
+
+    ts = [threading.Thread(target=body, args=(i + 1, p, f, solos[i])) for i, (p, f) in enumerate(forms)]
+    for t in ts:
+        t.start()
+    for t in ts:
+        t.join(60)
+        if t.is_alive():
+            raise core.MachineryError('scheduled thread did not finish (deadlock in the scheduler?)')
+    if baton.failed:
+        raise core.MachineryError(baton.failed)
+    return w.ev, names
 
 # ------------------------------------------------------------------ TLC schedules
 
@@ -317,7 +405,12 @@ def main(tier, replay=None):
                        'callbacks return normally']
     if replay:
         case = json.load(open(replay))['case']
-        ev = run_nested(lib, case)[0] if case['kind'] == 'nest' else run_threads(lib, case)
+        if case['kind'] == 'crowd':
+            ev, names = run_crowd(lib, case)
+            core.validate_hist(run, [{'tid': 1, 'ev': ev, 'case': case}], 'replay', consts, engine='c03', parsers=names)
+            return run.finish()
+        ev = run_nested(lib, case)[0] if case['kind'] == 'nest' else run_shared(lib, case) if case['kind'] == 'shared' \
+            else run_threads(lib, case)
         core.validate_hist(run, [{'tid': 1, 'ev': ev, 'case': case}], 'replay', consts, engine='c03')
         return run.finish()
     quick = tier == 'quick'
@@ -340,10 +433,11 @@ def main(tier, replay=None):
                         thirds += [inners[1], inners[0]] if not quick or (oi + ii + at) % 3 == 0 else []
                     for third in thirds:
                         for t3 in (('p3', 'p1') if third is not None else ('p3',)):
-                            case = {'kind': 'nest', 'outer': outer, 'inner': inner, 'third': third, 'target': target,
-                                    'target3': t3, 'at': at}
-                            ev, _ = run_nested(lib, case)
-                            traces.append({'tid': len(traces) + 1, 'ev': ev, 'case': case})
+                            for post in ((False, True) if third is None or not quick else (False,)):
+                                case = {'kind': 'nest', 'outer': outer, 'inner': inner, 'third': third, 'target': target,
+                                        'target3': t3, 'at': at, 'post': post}
+                                ev, _ = run_nested(lib, case)
+                                traces.append({'tid': len(traces) + 1, 'ev': ev, 'case': case})
     run.extra['nesting_histories'] = len(traces)
     # --- threads: all interleavings of two short evaluations on distinct parsers
     pairs = [(inners[0], inners[1]), (outers[0], inners[1]), (inners[5], inners[3]), (outers[3], outers[2]),
@@ -377,9 +471,28 @@ def main(tier, replay=None):
         traces.append({'tid': len(traces) + 1, 'ev': run_threads(lib, case), 'case': case})
         nthread += 1
     run.extra['thread_histories'] = nthread
+    # --- one handler function subscribed (on / once / not at all) on two parsers, evaluations in sequence
+    nshared = 0
+    for h1 in ('none', 'on', 'once'):
+        for h2 in ('none', 'on', 'once'):
+            if h1 == h2 == 'none':
+                continue
+            for order in (['p1', 'p2', 'p1', 'p2'], ['p2', 'p1', 'p2', 'p1'], ['p1', 'p1', 'p2', 'p2', 'p1']):
+                case = {'kind': 'shared', 'subs': [('p1', h1), ('p2', h2)], 'order': order}
+                traces.append({'tid': len(traces) + 1, 'ev': run_shared(lib, case), 'case': case})
+                nshared += 1
+    run.extra['shared_handler_histories'] = nshared
     CH = 1500
     for k in range(0, len(traces), CH):
         core.validate_hist(run, traces[k:k + CH], 'p%d' % (k // CH), consts, engine='c03')
+    # --- many evaluations in flight at once, one parser object each
+    crowd = []
+    for n in ((40,) if quick else (40, 70, 130)):
+        case = {'kind': 'crowd', 'n': n, 'formulas': [inners[0], inners[1], outers[3], inners[5]]}
+        ev, names = run_crowd(lib, case)
+        core.validate_hist(run, [{'tid': 1, 'ev': ev, 'case': case}], 'crowd%d' % n, consts, engine='c03', parsers=names)
+        crowd.append(n)
+    run.extra['crowds_in_flight'] = crowd
     run.exhaustive = True
     run.samples = [{'case': traces[3]['case']}, {'case': traces[-1]['case']}]
     return run.finish()
